@@ -374,6 +374,20 @@ pub fn generate(w: &mut dyn Write, seed: u64, thorough: bool) {
                     let mut fb = vec![req[..parts[0].len()].to_vec()];
                     fb.extend(req[parts[0].len()..].iter().map(|b| vec![*b]));
                     cuts.push(fb);
+                    // tampering inside a stream of tiny chunks that arrives in ONE read (several chunks are decoded by one call): a bit
+                    // of every byte is flipped (thorough: every bit); only a prefix of the written bytes may be released, nothing after
+                    let pfx = format!("@p={}", hex(&tiny.concat()));
+                    for i in 0..req.len() {
+                        for b in 0..8 {
+                            if !thorough && b != i % 8 {
+                                continue;
+                            }
+                            let mut m = req.clone();
+                            m[i] ^= 1 << b;
+                            let sargs: Vec<String> = vec!["sstcp".into(), kname.into(), hex(&key), "-".into(), users_s.clone(), "server".into(), hex(&rng.bytes(n)), "-".into(), now.to_string(), format!("D{}", hex(&m)), pfx.clone()];
+                            crate::emit_case(w, &sargs, exec);
+                        }
+                    }
                     for segs in cuts {
                         let meta = if !is22 || segs[0].len() >= head { expect.clone() } else { "@-".to_string() };
                         let sargs: Vec<String> = vec!["sstcp".into(), kname.into(), hex(&key), "-".into(), users_s.clone(), "server".into(), hex(&rng.bytes(n)), "-".into(), now.to_string(), ops_d(&segs), meta];
